@@ -86,6 +86,20 @@ def run(P, item):
                 cands = [e.val for e in h.pre if True] + [v2 for rs2 in d['rs'] for (o2, k2, v2, r2) in rs2 if o2.startswith('insert')]
                 pairs = [simp(b_and(k == e.key, r.fields[0] == e.val)) for e in h.pre] + [simp(b_and(k == k2, r.fields[0] == v2)) for rs2 in d['rs'] for (o2, k2, v2, r2) in rs2 if o2.startswith('insert')]
                 claims.append(('C18', 'a concurrent lookup returns only a value stored for that key', b_or(*pairs)))
+        # recency (LRU): a lookup that found its key is a use - afterwards that key is not older in the eviction order than a
+        # stored key that no operation of the concurrent phase touched (true in every linearisation of the two programs)
+        c07 = None
+        if pol == 'LRU' and (cfg.has_limit or cfg.has_mem):
+            touched = [op[1] for pr in progs for op in pr if len(op) > 1]
+            untouched = [e for i, e in enumerate(h.pre) if ('pre', i) not in [tuple(t) for t in touched]]
+            q = d['snap']['queue']
+            for rs in d['rs']:
+                for (opn, k, v, r) in rs:
+                    if opn != 'get' or r.variant != 1: continue
+                    for e in untouched:
+                        wrong = b_or(*[b_and(simp(q[i] == k), simp(q[j] == e.key)) for i in range(len(q)) for j in range(i + 1, len(q))]) if len(q) > 1 else False
+                        claims.append(('C07', 'LRU: a key found by a concurrent lookup is afterwards more recent than a stored key nobody touched', b_not(wrong)))
+                        c07 = (k, e.key)
         for prop, clause, f in claims:
             if prop not in props: continue
             res['claims'] += 1
@@ -96,7 +110,8 @@ def run(P, item):
                 w = model_witness(ctx, model, h, dict(op='conc'))
                 w.update(progs=progs, newkeys=[_ev(model, k) for k in d['newk']], newvals=[_ev(model, v) for rs in d['rs'] for (o2, k2, v, r2) in rs if v is not None],
                          locks=[[str(x) for x in e] for e in d['locks']], probe=[_ev(model, d['pk']), _ev(model, d['pv'])],
-                         keys=[_ev(model, k) for k, v in d['snap']['store']], queue=[_ev(model, k) for k in d['snap']['queue']])
+                         keys=[_ev(model, k) for k, v in d['snap']['store']], queue=[_ev(model, k) for k in d['snap']['queue']],
+                         c07=[_ev(model, c07[0]), _ev(model, c07[1])] if c07 else None)
                 res['failed'].append(dict(prop=prop, clause=clause, kind='cconc', cfg=cfg.tag(), op=_ps(progs), witness=w))
     return dict(paths=res['paths'], claims=res['claims'], failed=res['failed'], classes=sorted(res['classes']), funcs=sorted(res['funcs']), builtins=sorted(res['builtins']),
                 checks=st['checks'], solver_s=st['solver_s'], blocks=st['blocks'], infeasible=st['infeasible'], tag=f"CCONC {cfg.tag()} n={n} preempt<={pb} {_ps(progs)}")
@@ -146,6 +161,13 @@ def replay(f, w):
         elif l.startswith('queue '):
             cur = cur if cur is not None else dict(store=[], queue=[]); cur['queue'] = l.split()[1:]; segs.append(cur); cur = None
     dev = []
+    if f['prop'] == 'C07':
+        if segs and w.get('c07'):
+            q = segs[0]['queue']; hit, other = 'k%d' % w['c07'][0], 'k%d' % w['c07'][1]
+            if hit in q and other in q and q.index(hit) < q.index(other):
+                return True, f"natively the eviction queue after the concurrent phase is {q}: {hit} was found by a lookup, {other} was not touched, yet {hit} is the older one " + info, lines
+            return False, f"native queue {q} keeps the looked-up key behind the untouched one " + info, lines
+        return False, 'queue not observable ' + info, lines
     for i, sgm in enumerate(segs):
         un = [k for k in sgm['store'] if k not in sgm['queue']]
         if un: dev.append(f"{'at quiescence' if i == 0 else 'after the probe store'}: stored but untracked {un} (queue {sgm['queue']})")
